@@ -41,6 +41,7 @@ import os
 import random
 import shutil
 import struct
+import sys
 import traceback
 import warnings
 
@@ -1257,6 +1258,8 @@ def run(ctx):
                 ctx.fail(sig + "-direct", "direct call gen(k): %s (code %d)" % (what, c), replay, case=("direct", idx))
     run_attr_cases(ctx, Plain)
     run_multi_cases(ctx, Logged)
+    from props import c16_ambient
+    c16_ambient.run_ambient_cases(ctx, sys.modules[__name__], Logged, Plain)
     try:
         uniformity_report(ctx, Plain, pool)
     except Exception as e:  # the statistic is never a failure
